@@ -230,6 +230,42 @@ def sigRun (s : State) (sigs : List Sig) : List Event × Option Nat :=
      some (if !s.once && shutdownFails s.insts then 4 else 0))
   | some .hup => ([], none)
 
+/-! ### the shutdown pass, step by step (`allShutdownCallbacks`)
+
+`step s (.signal n)` treats the pass as atomic.  Here it is cut into its steps so that other goroutines' attempts to
+change the instance list can be interleaved: the pass is taken over the instances that are live when it BEGINS
+(`for _, inst := range instances` under `instancesMu`); whatever happens to the list afterwards — in the code nothing can,
+the mutex is held; a reload or stop has to wait — the pass visits exactly those instances, each once. -/
+
+structure Pass where
+  /-- casket.go `instances` -/
+  live : List Inst
+  /-- instances the running pass still has to visit (`none`: no pass is running) -/
+  remaining : Option (List Inst)
+  /-- callbacks run so far -/
+  out : List Event
+
+inductive PassAct where
+  | begin
+  | visit
+  /-- some other goroutine changes the instance list (a reload appends and splices, a stop splices) -/
+  | mutate (f : List Inst → List Inst)
+
+def passStep (p : Pass) : PassAct → Pass
+  | .begin =>
+    match p.remaining with
+    | none => { p with remaining := some p.live }
+    | some _ => p
+  | .visit =>
+    match p.remaining with
+    | some (i :: rest) => { p with remaining := some rest, out := p.out ++ (cbs .sd i.gen ++ cbs .fd i.gen) }
+    | _ => p
+  | .mutate f => { p with live := f p.live }
+
+def passRun (p : Pass) : List PassAct → Pass
+  | [] => p
+  | a :: rest => passRun (passStep p a) rest
+
 /-- the process state after a history -/
 def stateAfter (s : State) : List Op → State
   | [] => s
